@@ -413,3 +413,4 @@ fn create_big_binary(output_binary_filename: &Path, target_triple: &str,
     Ok(size)
 }
 
+#[cfg(rjrssync_verif)] pub(crate) mod verif_hooks { include!(concat!(env!("RJRSSYNC_VERIF_HARNESS"), "/hooks_boss_deploy.rs")); }
